@@ -51,15 +51,19 @@ type limitCfg struct {
 	Name          string
 	MaxUploadSize int64
 	MaxMemory     int64
+	// Legacy: the server is built with the deprecated entry point handler.GraphQL(es, options...)
+	// and its UploadMaxSize / UploadMaxMemory options
+	Legacy bool
 }
 
 // default / size limit only / always spill / both limits / tiny
 var limitCfgs = []limitCfg{
-	{"default", 0, 0},
-	{"upload2000", 2000, 0},
-	{"memory1", 0, 1},
-	{"upload8192-memory3000", 8192, 3000},
-	{"upload64", 64, 0},
+	{"default", 0, 0, false},
+	{"upload2000", 2000, 0, false},
+	{"memory1", 0, 1, false},
+	{"upload8192-memory3000", 8192, 3000, false},
+	{"upload64", 64, 0, false},
+	{"legacy-upload3000-memory700", 3000, 700, true},
 }
 
 func (l limitCfg) maxUpload() int64 {
@@ -222,6 +226,11 @@ func content(r *rand.Rand, n int) []byte {
 		pat := []byte("\r\n--" + mpBoundary + "x\r\nContent-Disposition: form-data; name=\"map\"\r\n\r\n")
 		for i := range b {
 			b[i] = pat[i%len(pat)]
+		}
+		// cut right behind the boundary text the content would END with a real delimiter line (a
+		// client never picks a boundary that occurs in its data): keep it a look-alike
+		if bytes.HasSuffix(b, []byte("--"+mpBoundary)) {
+			b[len(b)-1] = 'y'
 		}
 	case 2:
 		for i := range b {
